@@ -386,3 +386,45 @@ pub fn gen_prog(rng: &mut Rng, state: &StateSpec, wi: usize, rule: u8, nonce: u3
     }
     Prog { rule, nonce, steps, decl: Decl::Honest }
 }
+
+/// Template program: delete node `n` after detaching it — every outgoing edge is deleted, every
+/// incoming edge is either deleted or retargeted to another node (retarget-then-delete shape), and
+/// optionally an attached edge elsewhere is re-parented. Returns None when the instance offers no
+/// suitable node.
+pub fn gen_repoint_delete(rng: &mut Rng, state: &StateSpec, wi: usize, rule: u8, nonce: u32) -> Option<Prog> {
+    let inst = &state.insts[wi];
+    let portal_nodes: Vec<N> = state.insts.iter().filter_map(|i| match &i.portal { Some(PortalSpec::OnNode { pw, n }) if *pw == inst.w => Some(*n), _ => None }).collect();
+    let portal_edges: Vec<u8> = state.insts.iter().filter_map(|i| match &i.portal { Some(PortalSpec::OnEdge { pw, e }) if *pw == inst.w => Some(*e), _ => None }).collect();
+    let victims: Vec<N> = inst
+        .nodes
+        .iter()
+        .map(|(n, _)| *n)
+        .filter(|n| !portal_nodes.contains(n) && inst.edges.iter().any(|(e, _, t, _)| t == n && !portal_edges.contains(e)))
+        .collect();
+    if victims.is_empty() {
+        return None;
+    }
+    let n = *rng.pick(&victims);
+    let others: Vec<N> = inst.nodes.iter().map(|(m, _)| *m).filter(|m| *m != n).chain(std::iter::once(N::R(inst.w))).collect();
+    let mut steps = Vec::new();
+    for (e, f, t, ty) in &inst.edges {
+        if portal_edges.contains(e) && (*f == n || *t == n) {
+            return None;
+        }
+        if *f == n {
+            steps.push(Step::DeleteEdge { from: n, e: *e });
+        } else if *t == n {
+            if rng.chance(2, 3) {
+                // retarget = delete + re-insert under the same id (the delete replays before the node
+                // delete, the upsert after it)
+                steps.push(Step::DeleteEdge { from: *f, e: *e });
+                steps.push(Step::UpsertEdge { e: *e, from: if rng.chance(1, 4) { *rng.pick(&others) } else { *f }, to: *rng.pick(&others), ty: *ty });
+            } else {
+                steps.push(Step::DeleteEdge { from: *f, e: *e });
+            }
+        }
+    }
+    steps.push(Step::DeleteNode { n });
+    rng.shuffle(&mut steps);
+    Some(Prog { rule, nonce, steps, decl: Decl::Honest })
+}
